@@ -110,9 +110,10 @@ def columnFor (cols : List Bytes) (tag name : Bytes) : Option (Option Nat) :=
     | _ :: _ :: _ => some none
     | [] => none
 
-/-- column names the file format can hold unchanged: 1–10 bytes, no NUL, no blank at either end -/
+/-- column names the file holds unchanged: 1–11 bytes (go-shp's `Field.Name [11]byte` is filled completely by an
+11-byte name, written without terminator and read back as is - `C16_name_roundtrip`), no NUL, no blank at either end -/
 def nameInContract (n : Bytes) : Bool :=
-  decide (1 ≤ n.length) && decide (n.length ≤ 10) && !n.contains 0 && n.head? != some 32 && n.getLast? != some 32
+  decide (1 ≤ n.length) && decide (n.length ≤ 11) && !n.contains 0 && n.head? != some 32 && n.getLast? != some 32
     && n.all (fun c => c < 128)
 
 end GeomV.C16.Spec
